@@ -8,6 +8,7 @@ import (
 	"strconv"
 	"strings"
 
+	"github.com/z7zmey/php-parser/pkg/errors"
 	"github.com/z7zmey/php-parser/pkg/version"
 	"github.com/z7zmey/php-parser/verifmc/core"
 	"github.com/z7zmey/php-parser/verifmc/corpus"
@@ -119,3 +120,24 @@ func bigPrograms(f *corpus.Fam, minTokens int) []string {
 }
 
 func oracleNodes(res drive.Result) []ast.Vertex { return astx.PreOrder(res.Root) }
+
+func mkWhat(format string, a ...interface{}) string { return clipS(fmt.Sprintf(format, a...), 600) }
+
+func countSub(s, sub string) int { return strings.Count(s, sub) }
+
+// errList: canonical text of an error list (message and position of each error, in delivery order).
+func errList(es []*errors.Error) string {
+	var b strings.Builder
+	for _, e := range es {
+		if e == nil {
+			b.WriteString("<nil>;")
+			continue
+		}
+		b.WriteString(e.Msg)
+		if e.Pos != nil {
+			fmt.Fprintf(&b, "@%d:%d-%d:%d", e.Pos.StartLine, e.Pos.StartPos, e.Pos.EndLine, e.Pos.EndPos)
+		}
+		b.WriteString(";")
+	}
+	return b.String()
+}
